@@ -25,7 +25,7 @@ def crash_corpus(n, seed):
     out = []
     for i in range(n):
         cfg = dict(CRASH_CFGS[i % len(CRASH_CFGS)])
-        b = G.gen_behaviour(r, "crashw", "tiny", "cw%d" % i, cfg, length=r.randint(5, 11), safe_first=True)
+        b = G.gen_behaviour(r, "crashw", "tiny", "cw%d" % i, cfg, length=r.randint(5, 11))
         b["cfg"]["proj"] = False
         out.append(b)
     return out
@@ -537,7 +537,7 @@ def c10(tier):
     behs = PE.load_corpus_files("C10")
     for i in range(n):
         cfg = dict(PL_CFGS[i % len(PL_CFGS)])
-        b = G.gen_behaviour(r, "crashw", "tiny", "pl%d" % i, cfg, length=r.randint(4, 9), safe_first=True)
+        b = G.gen_behaviour(r, "crashw", "tiny", "pl%d" % i, cfg, length=r.randint(4, 9))
         b["cfg"]["proj"] = False
         behs.append(b)
     io_mc = design_mc_io()
